@@ -412,24 +412,28 @@ Proof. now destruct t. Qed.
 
 Lemma rip_shape ps fill ph pins pkids i p' evs cont :
   rebalance_in_parent ps fill (NT ph pins pkids) i = Ok (p', evs, cont) ->
-  (p' = NT ph pins pkids /\ evs = [] /\ cont = false) \/
+  (p' = NT ph pins pkids /\ evs = [] /\ cont = false /\ (forall n, nth_error pkids i = Some n -> h_unbal (hd_of n) = false)) \/
   (exists a n b, pkids = a ++ n :: b /\ length a = i /\ h_unbal (hd_of n) = true /\
-     p' = NT ph pins (a ++ set_unbal false n :: b) /\ evs = [] /\ cont = false) \/
+     p' = NT ph pins (a ++ set_unbal false n :: b) /\ evs = [] /\ cont = false /\ ins_of n <> []) \/
   (exists a n b, pkids = a ++ n :: b /\ length a = i /\ h_unbal (hd_of n) = true /\ ins_of n = [] /\ (i < length pins)%nat /\
      p' = NT (unb ph) (remove_nth i pins) (a ++ b) /\ evs = free_ev n /\ cont = true) \/
   (exists a0 n b0 a l0 r0 b, pkids = a0 ++ n :: b0 /\ length a0 = i /\ h_unbal (hd_of n) = true /\
      a0 ++ set_unbal false n :: b0 = a ++ l0 :: r0 :: b /\ (S (length a) < length pins)%nat /\
      p' = NT (unb ph) (remove_nth (S (length a)) pins) (a ++ merged l0 r0 :: b) /\
-     evs = free_ev (materialize r0) /\ cont = true).
+     evs = free_ev (materialize r0) /\ cont = true /\ ins_of n <> []).
 Proof.
   intros H. cbv beta iota zeta delta [rebalance_in_parent] in H.
   destruct (nth_error pkids i) as [n|] eqn:En; [|discriminate].
   destruct (h_unbal (hd_of n)) eqn:Hu; cbn [negb] in H.
-  2:{ left. apply Ok_inj3 in H. destruct H as (<- & <- & <-). auto. }
+  2:{ left. apply Ok_inj3 in H. destruct H as (<- & <- & <-). repeat split; auto. intros n' En'. congruence. }
   destruct (nth_error_decomp _ _ _ En) as (a & b & Epk & La).
-  destruct (big_enough _ ps fill).
+  destruct (big_enough _ ps fill) eqn:Big.
   { right; left. apply Ok_inj3 in H. destruct H as (<- & <- & <-). exists a, n, b.
-    rewrite Epk at 2. rewrite (replace_nth_at _ _ _ _ _ La). auto 10. }
+    rewrite Epk at 2. rewrite (replace_nth_at _ _ _ _ _ La).
+    assert (Ne : ins_of n <> []).
+    { intros E0. unfold big_enough in Big. apply andb_true_iff in Big. destruct Big as [_ Big].
+      cbn [as_node n_inodes] in Big. rewrite ins_set_unbal, E0 in Big. cbn [length] in Big. apply Nat.ltb_lt in Big. lia. }
+    auto 10. }
   rewrite ins_set_unbal in H.
   destruct (ins_of n) as [|x0 xs] eqn:Ei.
   - right; right; left.
@@ -457,7 +461,7 @@ Proof.
     exists a, n, b, a1, l0, r0, b1. rewrite <- La1 in Ey |- *.
     assert (E1 : kids1 = a ++ set_unbal false n :: b). { unfold kids1. rewrite Epk. apply replace_nth_at; auto. }
     rewrite Ek1. rewrite (replace_nth_at _ _ _ _ _ eq_refl), (remove_nth_at_S _ _ _ _ _ eq_refl).
-    rewrite <- E1, Ek1. auto 12.
+    rewrite <- E1, Ek1. assert (Ne : ins_of n <> []) by (rewrite Ei; discriminate). auto 14.
 Qed.
 
 (** * P2: page accounting *)
@@ -1287,8 +1291,634 @@ Corollary commit_tree_alloc_count ps fill fuel t order t' evs :
   length (allocs evs) = length (zeros t').
 Proof. intros. eapply Permutation_length. eapply commit_tree_allocs; eauto. Qed.
 
-(** P4 (no empty page survives) is NOT proved here.  Statement left for later:
-    if every vertex of [t] with no inodes (other than the root) is materialised, unbalanced and listed in [order], then
-    [commit_tree ps fill fuel t order = Ok (t', evs) -> no_empty fuel' true t' = true] (fuel' > height of t').
-    Ingredients available above: [rip_shape] (the emptied child is removed and the parent is marked unbalanced and visited
-    next), [find_node_matpath], [spill_self_ok] + NodeProofs.split_nonempty (no piece of a non-empty node is empty). *)
+(** P4 (no empty page survives) is proved at the end of this file: [commit_tree_no_empty]. *)
+
+(** * Q1/Q2: commit_bucket (rebalance, then EITHER inline + free everything OR spill) *)
+Definition inline_hdr : nhdr := {| h_mat := false; h_unbal := false; h_pgid := 0; h_ov := 0; h_key := []; h_leaf := true |}.
+
+Lemma commit_bucket_cases ps fill fuel t order t' evs inl :
+  commit_bucket ps fill fuel t order = Ok (t', evs, inl) ->
+  (h_mat (hd_of t) = false /\ t' = t /\ evs = [] /\ inl = (h_pgid (hd_of t) =? 0)) \/
+  (h_mat (hd_of t) = true /\ exists r e1, rebalance_all ps fill fuel t order = Ok (r, e1) /\
+     ((inlineable ps r = true /\ inl = true /\ t' = NT inline_hdr (ins_of r) [] /\
+       evs = e1 ++ (if h_pgid (hd_of r) =? 0 then [] else free_all fuel r)) \/
+      (inlineable ps r = false /\ inl = false /\ exists e2, spill_root ps fill fuel r = Ok (t', e2) /\ evs = e1 ++ e2))).
+Proof.
+  intros H. unfold commit_bucket in H. destruct (h_mat (hd_of t)) eqn:M; cbn [negb] in H.
+  2:{ left. apply Ok_inj3 in H. destruct H as (<- & <- & <-). auto. }
+  right. split; auto. destruct (rebalance_all ps fill fuel t order) as [[r e1]| |] eqn:R; try discriminate. cbn [bindr fst snd] in H.
+  exists r, e1. split; auto. destruct (inlineable ps r) eqn:I.
+  - left. apply Ok_inj3 in H. destruct H as (<- & <- & <-). auto.
+  - right. destruct (spill_root ps fill fuel r) as [[t2 e2]| |] eqn:Sp; try discriminate. cbn [bindr fst snd] in H.
+    apply Ok_inj3 in H. destruct H as (<- & <- & <-). eauto 6.
+Qed.
+
+Lemma inlineable_leaf ps r : inlineable ps r = true -> h_mat (hd_of r) = true /\ h_leaf (hd_of r) = true.
+Proof. unfold inlineable. intros H. apply andb_true_iff in H. destruct H as [H _]. now apply andb_true_iff in H. Qed.
+
+Lemma wf_leaf_inv d r : wf d r -> h_leaf (hd_of r) = true -> d = 0%nat /\ kids_of r = [] /\ flat r = ins_of r.
+Proof. intros W L. inversion W; subst; cbn in *; [|congruence]. rewrite H. auto. Qed.
+
+(** Q1 *)
+Theorem commit_bucket_flat ps fill fuel t order t' evs inl :
+  aligned t -> commit_bucket ps fill fuel t order = Ok (t', evs, inl) -> flat t' = flat t /\ aligned t'.
+Proof.
+  intros [d W] H. destruct (commit_bucket_cases _ _ _ _ _ _ _ _ H) as [(_ & -> & _)|(M & r & e1 & R & [(I & _ & -> & _)|(_ & _ & e2 & Sp & _)])].
+  - split; [auto | exists d; auto].
+  - destruct (rebalance_all_ok _ _ _ _ _ _ _ _ W R) as [[d1 W1] F1].
+    destruct (inlineable_leaf _ _ I) as [_ L]. destruct (wf_leaf_inv _ _ W1 L) as (_ & _ & E).
+    split; [cbn; congruence | exists 0%nat; now constructor].
+  - destruct (rebalance_all_ok _ _ _ _ _ _ _ _ W R) as [[d1 W1] F1].
+    destruct (spill_root_ok _ _ _ _ _ _ _ W1 Sp) as [A2 F2]. split; [congruence | auto].
+Qed.
+Print Assumptions commit_bucket_flat.
+
+(** when the root is materialised, inl = true means: one unpaged leaf (pgid 0, no kids, not materialised).
+    (When the root is NOT materialised the bucket is not written: t' = t and inl only reports whether its pgid is 0.) *)
+Theorem commit_bucket_inline ps fill fuel t order t' evs :
+  h_mat (hd_of t) = true -> commit_bucket ps fill fuel t order = Ok (t', evs, true) ->
+  exists ins, t' = NT inline_hdr ins [] /\ runs t' = [] /\ allpg false t'.
+Proof.
+  intros M H. destruct (commit_bucket_cases _ _ _ _ _ _ _ _ H) as [(M' & _)|(_ & r & e1 & R & [(I & _ & -> & _)|(_ & ? & _)])]; try congruence.
+  eexists. split; [reflexivity|]. split; [reflexivity|]. constructor; auto. intros E; discriminate.
+Qed.
+
+Lemma free_all_runs : forall fuel t d, wf d t -> (d < fuel)%nat -> freed (free_all fuel t) = runs t.
+Proof.
+  induction fuel as [|f IH]; intros t d W L; [lia|]. cbn [free_all]. rewrite freed_app, freed_free_ev, runs_hd_kids. f_equal.
+  inversion W as [? ? Hl|d0 ? ? ? Hl Hlen Hk]; subst; cbn [kids_of]; [reflexivity|].
+  assert (Hk' : Forall (fun c => freed (free_all f c) = runs c) kids).
+  { eapply Forall_impl; [|exact Hk]. intros c Wc. apply (IH c d0); [auto | lia]. }
+  clear -Hk'. induction Hk' as [|c l E _ IHl]; cbn [flat_map]; [reflexivity|]. now rewrite freed_app, E, IHl.
+Qed.
+
+(** Q2.  Fuel condition: 0 < fuel (the inlined tree is a single leaf, height 0; [free_all 0] frees nothing, and
+    [rebalance_all 0] can still answer Ok because [find_node 0] finds nothing). *)
+Theorem commit_bucket_runs ps fill fuel t order t' evs inl :
+  (0 < fuel)%nat -> aligned t -> commit_bucket ps fill fuel t order = Ok (t', evs, inl) ->
+  Permutation (runs t) (freed evs ++ runs t').
+Proof.
+  intros Hf [d W] H. destruct (commit_bucket_cases _ _ _ _ _ _ _ _ H) as [(_ & -> & -> & _)|(M & r & e1 & R & [(I & _ & -> & ->)|(_ & _ & e2 & Sp & ->)])].
+  - reflexivity.
+  - destruct (rebalance_all_ok _ _ _ _ _ _ _ _ W R) as [[d1 W1] F1].
+    pose proof (rebalance_all_runs _ _ _ _ _ _ _ _ W R) as HP1.
+    destruct (inlineable_leaf _ _ I) as [_ L]. destruct (wf_leaf_inv _ _ W1 L) as (-> & K & _).
+    assert (E : freed (if h_pgid (hd_of r) =? 0 then [] else free_all fuel r) = runs r).
+    { destruct (h_pgid (hd_of r) =? 0) eqn:Z; [|apply (free_all_runs fuel r 0%nat W1 Hf)].
+      rewrite runs_hd_kids, K. unfold ownh. now rewrite Z. }
+    rewrite freed_app, E. change (runs (NT inline_hdr (ins_of r) [])) with (@nil (N * N)). rewrite !app_nil_r. exact HP1.
+  - destruct (rebalance_all_ok _ _ _ _ _ _ _ _ W R) as [[d1 W1] F1].
+    pose proof (rebalance_all_runs _ _ _ _ _ _ _ _ W R) as HP1.
+    pose proof (spill_root_runs _ _ _ _ _ _ _ W1 Sp) as HP2. rewrite freed_app. perm_tac.
+Qed.
+Print Assumptions commit_bucket_runs.
+
+Theorem commit_bucket_frees ps fill fuel t order t' evs inl :
+  (0 < fuel)%nat -> aligned t -> NoDup (ids t) -> commit_bucket ps fill fuel t order = Ok (t', evs, inl) ->
+  (forall p ov, In (EvFree p ov) evs -> In (p, ov) (runs t)) /\
+  NoDup (map fst (freed evs)) /\
+  NoDup (ids t') /\
+  (forall x, In x (ids t') <-> In x (ids t) /\ ~ In x (map fst (freed evs))).
+Proof.
+  intros Hf A ND H. pose proof (commit_bucket_runs _ _ _ _ _ _ _ _ Hf A H) as HP.
+  pose proof (Permutation_map fst HP) as HM. rewrite map_app in HM. fold (ids t) in HM. fold (ids t') in HM.
+  pose proof (Permutation_NoDup HM ND) as ND2.
+  split; [|split; [|split]].
+  - intros p ov Hin. apply In_freed in Hin. eapply Permutation_in; [symmetry; exact HP | apply in_or_app; auto].
+  - apply (nodup_app_inv _ _ ND2).
+  - apply (nodup_app_inv _ _ ND2).
+  - intros x. split.
+    + intros Hx. split; [eapply Permutation_in; [symmetry; exact HM | apply in_or_app; auto]|].
+      intros Hfr. revert ND2 Hfr Hx. generalize (map fst (freed evs)) (ids t'). clear.
+      induction l as [|y l IH]; intros l' ND Hfr Hx; [destruct Hfr|]. cbn in ND. inversion ND; subst.
+      destruct Hfr as [->|Hfr]; [apply H1; apply in_or_app; auto | eauto].
+    + intros [Hx Hn]. apply (Permutation_in _ HM) in Hx. apply in_app_or in Hx. tauto.
+Qed.
+Print Assumptions commit_bucket_frees.
+
+(** * Q3 (P4): no empty page survives *)
+(** [okv rest c]: if c has no inodes then it is a materialised, unbalanced node with a non-zero page id that is still
+    to be visited ([rest]).  [allgood rest c]: that holds for c and everything below.  [good rest t]: for every NON-ROOT
+    vertex of t.  [good [] t] = no non-root vertex of t is empty. *)
+Definition okv (rest : list N) (c : nt) : Prop :=
+  ins_of c = [] -> h_mat (hd_of c) = true /\ h_unbal (hd_of c) = true /\ h_pgid (hd_of c) <> 0 /\ In (h_pgid (hd_of c)) rest.
+Inductive allgood (rest : list N) : nt -> Prop :=
+| ag_i c : okv rest c -> Forall (allgood rest) (kids_of c) -> allgood rest c.
+Definition good (rest : list N) (t : nt) : Prop := Forall (allgood rest) (kids_of t).
+
+Lemma ag_okv rest c : allgood rest c -> okv rest c.
+Proof. now inversion 1. Qed.
+Lemma ag_kids rest c : allgood rest c -> Forall (allgood rest) (kids_of c).
+Proof. now inversion 1. Qed.
+Lemma ag_nil_ne c : allgood [] c -> ins_of c <> [].
+Proof. intros A E. destruct (ag_okv _ _ A E) as (_ & _ & _ & []). Qed.
+Lemma ag_nonempty rest c : ins_of c <> [] -> Forall (allgood rest) (kids_of c) -> allgood rest c.
+Proof. intros Ne K. constructor; auto. intros E. contradiction. Qed.
+
+(** ** (a) spill keeps "no non-root vertex is empty" *)
+Lemma spill_self_ne ps fill h ins kids d pcs evs :
+  wf d (NT h ins kids) -> ins <> [] -> Forall (allgood []) kids -> spill_self ps fill h ins kids = Ok (pcs, evs) ->
+  Forall (allgood []) pcs /\ pcs <> [].
+Proof.
+  intros W Ne K H. unfold spill_self in H.
+  destruct (split _ ps fill) as [pieces| |] eqn:Sp; try discriminate. cbn [bindr] in H.
+  apply Ok_inj2 in H. destruct H as [<- _].
+  pose proof (split_concat _ _ _ _ Sp) as C. cbn [n_inodes] in C.
+  pose proof (split_nonempty _ _ _ _ Sp Ne) as PN. cbn [n_inodes] in PN.
+  assert (KK : Forall (Forall (allgood [])) (if h_leaf h then map (fun _ => []) pieces else cut_like pieces kids)).
+  { destruct (h_leaf h); [|now apply cut_like_Forall]. clear. induction pieces; cbn; constructor; auto. }
+  assert (LL : length pieces = length (if h_leaf h then map (fun _ => @nil nt) pieces else cut_like pieces kids)).
+  { inversion W as [? ? Hl|d0 ? ? ? Hl Hlen Hk]; subst; rewrite Hl; [now rewrite map_length|].
+    destruct (cut_like_spec pieces kids Hlen) as [_ F2]. eapply Forall2_length'; eauto. }
+  revert KK LL. generalize (if h_leaf h then map (fun _ : list inode => @nil nt) pieces else cut_like pieces kids). intros kidss KK LL.
+  split.
+  - apply Forall_forall. intros x Hx. apply in_map_iff in Hx. destruct Hx as ([p k] & <- & Hin). cbn [fst snd].
+    pose proof (in_combine_l _ _ _ _ Hin) as Hp. apply in_combine_r in Hin. rewrite Forall_forall in KK, PN.
+    apply ag_nonempty; cbn [ins_of kids_of]; auto.
+  - destruct pieces as [|p0 pr]; [cbn in C; congruence|]. destruct kidss; [discriminate|]. discriminate.
+Qed.
+
+Definition spill_ne_post (r : list nt * list ev) : Prop := Forall (allgood []) (fst r) /\ fst r <> [].
+
+Lemma spill_go_ne leaf sp d : forall ins kids ins' kids' evs,
+  Forall (wf d) kids -> Forall (allgood []) kids ->
+  (forall c r, In c kids -> wf d c -> allgood [] c -> sp c = Ok r -> spill_ne_post r) ->
+  spill_go leaf sp ins kids = Ok (ins', kids', evs) ->
+  Forall (allgood []) kids' /\ (ins <> [] -> ins' <> []).
+Proof.
+  induction ins as [|i ir IH]; intros [|c cr] ins' kids' evs F FA Hsp H.
+  - cbn in H. inversion H; subst. auto.
+  - discriminate.
+  - apply spill_go_nokids in H. inversion H; subst. auto.
+  - cbn [spill_go] in H.
+    destruct (spill_go leaf sp ir cr) as [[[ri rk] re]| |] eqn:G; try discriminate. cbn [bindr] in H.
+    pose proof (Forall_inv F) as Wc. pose proof (Forall_inv_tail F) as Fr.
+    pose proof (Forall_inv FA) as Ac. pose proof (Forall_inv_tail FA) as FAr.
+    assert (Hr : Forall (allgood []) rk).
+    { apply (IH cr ri rk re); auto. intros c0 r0 Hin. apply (Hsp c0 r0). now right. }
+    destruct (h_mat (hd_of c)) eqn:M.
+    + destruct (ins_of c); [discriminate|].
+      destruct (sp c) as [cp| |] eqn:Sc; try discriminate. cbn [bindr] in H.
+      apply Ok_inj3 in H. destruct H as (<- & <- & _).
+      destruct (Hsp c cp (or_introl eq_refl) Wc Ac Sc) as [Fp Np]. split; [apply Forall_app; auto|].
+      intros _. destruct (fst cp); [congruence | discriminate].
+    + apply Ok_inj3 in H. destruct H as (<- & <- & _). split; [constructor; auto | discriminate].
+Qed.
+
+Lemma spill_ne ps fill : forall fuel t d r, wf d t -> allgood [] t -> spill ps fill fuel t = Ok r -> spill_ne_post r.
+Proof.
+  induction fuel as [|f IH]; intros t d r W A H; [discriminate|].
+  pose proof (ag_nil_ne _ A) as Ne. pose proof (ag_kids _ _ A) as K.
+  destruct t as [h ins kids]. cbn [ins_of kids_of] in *. rewrite spill_unfold in H.
+  destruct (negb (h_mat h)).
+  { apply Ok_inj in H. subst r. split; cbn [fst]; [constructor; auto | discriminate]. }
+  destruct (spill_go _ _ ins kids) as [[[ins' kids'] evs]| |] eqn:G; try discriminate. cbn [bindr] in H.
+  destruct (spill_self ps fill h ins' kids') as [[pcs e2]| |] eqn:Sp; try discriminate. cbn [bindr fst snd] in H.
+  apply Ok_inj in H. subst r. unfold spill_ne_post. cbn [fst].
+  inversion W as [? ? Hl|d0 ? ? ? Hl Hlen Hk]; subst.
+  - apply spill_go_nokids in G. inversion G; subst. eapply spill_self_ne; eauto.
+  - destruct (spill_go_ok _ _ d0 _ _ _ _ _ Hlen Hk (fun c r _ Wc Hc => spill_ok ps fill f c d0 r Wc Hc) G) as (L1 & F1 & E1).
+    destruct (spill_go_ne _ _ d0 _ _ _ _ _ Hk K (fun c r _ Wc Ac Hc => IH c d0 r Wc Ac Hc) G) as [K' Ne'].
+    assert (W' : wf (S d0) (NT h ins' kids')) by (constructor; auto).
+    eapply spill_self_ne; eauto.
+Qed.
+
+Lemma spill_up_ne ps fill : forall fuel pcs evs d t' evs', Forall (wf d) pcs -> Forall (allgood []) pcs ->
+  spill_up ps fill fuel pcs evs = Ok (t', evs') -> allgood [] t'.
+Proof.
+  induction fuel as [|f IH]; intros pcs evs d t' evs' F FA H; [discriminate|].
+  cbn [spill_up] in H. destruct pcs as [|p1 [|p2 rest]]; [discriminate| |].
+  - apply Ok_inj2 in H. destruct H as [<- _]. now inversion FA.
+  - set (pcs := p1 :: p2 :: rest) in *.
+    match type of H with context [spill_self ps fill ?h ?i ?k] => destruct (spill_self ps fill h i k) as [[pcs2 e2]| |] eqn:Sp; try discriminate;
+      assert (W : wf (S d) (NT h i k)) by (constructor; auto; now rewrite map_length) end.
+    cbn [bindr fst snd] in H. destruct (spill_self_ok _ _ _ _ _ _ _ _ W Sp) as [F2 E2].
+    destruct (spill_self_ne _ _ _ _ _ _ _ _ W ltac:(unfold pcs; discriminate) FA Sp) as [FA2 _].
+    eapply IH; eauto.
+Qed.
+
+Theorem spill_root_ne ps fill fuel t d t' evs :
+  wf d t -> good [] t -> spill_root ps fill fuel t = Ok (t', evs) -> good [] t'.
+Proof.
+  intros W G H. unfold spill_root in H. destruct (negb (h_mat (hd_of t))).
+  { apply Ok_inj2 in H. destruct H as [<- _]. auto. }
+  destruct (spill ps fill fuel t) as [r| |] eqn:Sp; try discriminate. cbn [bindr] in H.
+  destruct (spill_ok _ _ _ _ _ _ W Sp) as [F E].
+  destruct (ins_of t) as [|x xs] eqn:Ei.
+  - (* an empty root: it stays one (empty) vertex *)
+    destruct (wf_empty _ _ W Ei) as [K _]. destruct t as [h ins kids]. cbn in Ei, K. subst ins kids.
+    destruct fuel as [|f]; [discriminate|]. rewrite spill_unfold in Sp.
+    destruct (negb (h_mat h)).
+    { apply Ok_inj in Sp. subst r. cbn in H. apply Ok_inj2 in H. destruct H as [<- _]. constructor. }
+    cbn [spill_go bindr] in Sp. unfold spill_self in Sp.
+    rewrite (split_small _ ps fill) in Sp by (cbn; lia). cbn [bindr n_inodes] in Sp.
+    assert (exists p, fst r = [NT (page_hdr ps (h_leaf h) []) [] p] /\ p = []) as (p & Er & ->).
+    { destruct (h_leaf h); cbn in Sp; apply Ok_inj in Sp; subst r; cbn; eauto. }
+    rewrite Er in H. cbn [spill_up] in H. apply Ok_inj2 in H. destruct H as [<- _]. constructor.
+  - assert (A : allgood [] t) by (apply ag_nonempty; [rewrite Ei; discriminate | exact G]).
+    destruct (spill_ne _ _ _ _ _ _ W A Sp) as [FA _].
+    apply ag_kids. eapply spill_up_ne; eauto.
+Qed.
+
+(** ** (b) one rebalance_at *)
+(** [ctx rest path t Q]: the subtrees hanging off [path] (the siblings of the path vertices) are all good, and the
+    subtree at [path] satisfies Q *)
+Fixpoint ctx (rest : list N) (path : list nat) (t : nt) (Q : nt -> Prop) : Prop :=
+  match path with
+  | [] => Q t
+  | j :: r => exists a c b, kids_of t = a ++ c :: b /\ length a = j /\ Forall (allgood rest) (a ++ b) /\ ctx rest r c Q
+  end.
+
+Lemma nth_error_mid {A} (a : list A) x b : nth_error (a ++ x :: b) (length a) = Some x.
+Proof. induction a; cbn; auto. Qed.
+Lemma app_mid_inj {A} : forall (a a' : list A) x x' b b', a ++ x :: b = a' ++ x' :: b' -> length a = length a' ->
+  a = a' /\ x = x' /\ b = b'.
+Proof.
+  induction a as [|y a IH]; intros [|y' a'] x x' b b' E L; cbn in *; try discriminate.
+  - inversion E; auto.
+  - inversion E; subst. destruct (IH a' x x' b b' H1) as (-> & -> & ->); auto.
+Qed.
+
+Lemma ctx_get rest : forall path t Q, ctx rest path t Q -> exists s, get_at t path = Some s /\ Q s.
+Proof.
+  induction path as [|j r IH]; intros t Q C; cbn in *; [eauto|].
+  destruct C as (a & c & b & -> & <- & _ & C). rewrite nth_error_mid. auto.
+Qed.
+Lemma ctx_set rest : forall path t Q (Q' : nt -> Prop) s', ctx rest path t Q -> Q' s' -> ctx rest path (set_at t path s') Q'.
+Proof.
+  induction path as [|j r IH]; intros t Q Q' s' C HQ; cbn [ctx set_at] in *; [auto|].
+  destruct C as (a & c & b & E & <- & F & C). destruct t as [h ins kids]. cbn [kids_of] in *. subst kids.
+  rewrite nth_error_mid, replace_nth_app. cbn [kids_of]. exists a, (set_at c r s'), b. eauto.
+Qed.
+Lemma ctx_snoc rest : forall path t Q, path <> [] -> ctx rest path t Q ->
+  ctx rest (removelast path) t (fun p => exists a u b, kids_of p = a ++ u :: b /\ length a = last path 0%nat /\
+                                          Forall (allgood rest) (a ++ b) /\ Q u).
+Proof.
+  induction path as [|j r IH]; intros t Q Ne C; [congruence|].
+  destruct r as [|j2 r2].
+  - cbn in *. destruct C as (a & c & b & E & L & F & C). exists a, c, b. auto.
+  - change (removelast (j :: j2 :: r2)) with (j :: removelast (j2 :: r2)).
+    change (last (j :: j2 :: r2) 0%nat) with (last (j2 :: r2) 0%nat).
+    cbn [ctx] in C |- *. destruct C as (a & c & b & E & L & F & C). exists a, c, b. repeat split; auto.
+    apply IH; [discriminate | exact C].
+Qed.
+
+Lemma get_at_snoc : forall path t, path <> [] ->
+  get_at t path = match get_at t (removelast path) with Some p => nth_error (kids_of p) (last path 0%nat) | None => None end.
+Proof.
+  induction path as [|j r IH]; intros t Ne; [congruence|].
+  destruct r as [|j2 r2].
+  - cbn. destruct (nth_error (kids_of t) j); auto.
+  - change (removelast (j :: j2 :: r2)) with (j :: removelast (j2 :: r2)).
+    change (last (j :: j2 :: r2) 0%nat) with (last (j2 :: r2) 0%nat).
+    cbn [get_at]. destruct (nth_error (kids_of t) j); auto. apply IH. discriminate.
+Qed.
+Lemma get_set_same : forall path t p x, get_at t path = Some p -> get_at (set_at t path x) path = Some x.
+Proof.
+  induction path as [|j r IH]; intros t p x G; cbn in *; [auto|].
+  destruct t as [h ins kids]. cbn [kids_of] in *. destruct (nth_error kids j) as [c|] eqn:Ec; [|discriminate].
+  cbn [kids_of]. erewrite nth_error_replace_same; eauto.
+Qed.
+
+Lemma ctx_ag rest : forall path c d, wf d c -> ctx rest path c (fun s => Forall (allgood rest) (kids_of s) /\ ins_of s <> []) -> allgood rest c.
+Proof.
+  induction path as [|j r IH]; intros c d W C; cbn [ctx] in C.
+  - destruct C. now apply ag_nonempty.
+  - destruct C as (a & c' & b & E & L & F & C).
+    inversion W as [? ? Hl|d0 ? ? ? Hl Hlen Hk]; subst; cbn [kids_of ins_of] in *; subst. { destruct a; discriminate. }
+    apply ag_nonempty; cbn [kids_of ins_of].
+    + intros E0. subst ins. rewrite app_length in Hlen. cbn in Hlen. lia.
+    + apply Forall_app in F. destruct F as [Fa Fb]. apply Forall_app. split; auto. constructor; auto.
+      apply (IH c' d0); auto. apply Forall_app in Hk. destruct Hk as [_ Hk]. now apply Forall_inv in Hk.
+Qed.
+Lemma ctx_good rest path t d : wf d t -> ctx rest path t (fun s => Forall (allgood rest) (kids_of s) /\ ins_of s <> []) -> good rest t.
+Proof.
+  intros W C. destruct path as [|j r]; [exact (proj1 C)|]. exact (ag_kids _ _ (ctx_ag rest (j :: r) t d W C)).
+Qed.
+
+Lemma materialize_mat t : h_mat (hd_of t) = true -> materialize t = t.
+Proof. destruct t as [h i k]. cbn. now intros ->. Qed.
+Lemma ag_set_unbal rest b c : ins_of c <> [] -> Forall (allgood rest) (kids_of c) -> allgood rest (set_unbal b c).
+Proof. intros Ne K. apply ag_nonempty; [now rewrite ins_set_unbal | now rewrite kids_set_unbal]. Qed.
+Lemma ag_merged rest l0 r0 : allgood rest l0 -> allgood rest r0 -> allgood rest (merged l0 r0).
+Proof.
+  intros Al Ar. constructor.
+  - intros E. unfold merged in *. cbn [ins_of hd_of] in *. apply app_eq_nil in E. destruct E as [E _].
+    rewrite ins_materialize in E. destruct (ag_okv _ _ Al E) as (M & U). now rewrite (materialize_mat _ M).
+  - unfold merged. cbn [kids_of]. rewrite !kids_materialize. apply Forall_app. split; now apply ag_kids.
+Qed.
+
+Lemma rebalance_root_good ps fill rest t t' evs : good rest t -> rebalance_root ps fill t = (t', evs) -> good rest t'.
+Proof.
+  unfold good. intros G H. unfold rebalance_root in H.
+  destruct (negb (h_unbal (hd_of t))). { inversion H; subst. auto. }
+  assert (D : Forall (allgood rest) (kids_of (set_unbal false t))) by now rewrite kids_set_unbal.
+  destruct (big_enough _ ps fill). { inversion H; subst; auto. }
+  destruct t as [h ins kids]. cbn [set_unbal] in *. cbn [h_leaf] in H.
+  destruct (h_leaf h); [inversion H; subst; auto|].
+  destruct ins as [|x [|x2 xs]]; [inversion H; subst; auto| |inversion H; subst; auto].
+  destruct kids as [|c0 [|c1 cs]]; [inversion H; subst; auto| |inversion H; subst; auto].
+  inversion H; subst t' evs. cbn [kids_of] in *. rewrite kids_materialize. apply ag_kids. now apply Forall_inv in G.
+Qed.
+
+(** the vertex at [path] (about to be rebalanced) is exempt, but if it is empty it must be unbalanced; everything else
+    off the path is good for [rest]; then after the rebalance (including the recursion to the parents, which removes
+    parents that became empty) every non-root vertex is good for [rest] *)
+Lemma rebalance_at_good ps fill rest : forall fuel t path d t' evs u,
+  wf d t -> get_at t path = Some u ->
+  ctx rest path t (fun s => Forall (allgood rest) (kids_of s)) ->
+  (path <> [] -> ins_of u = [] -> h_unbal (hd_of u) = true) ->
+  rebalance_at ps fill fuel t path = Ok (t', evs) -> good rest t'.
+Proof.
+  induction fuel as [|f IH]; intros t path d t' evs u W Gu C Hu H; [discriminate|].
+  cbn [rebalance_at] in H. destruct path as [|i0 r0].
+  - apply Ok_inj in H. eapply rebalance_root_good; [exact C | exact H].
+  - set (path := i0 :: r0) in *. assert (Np : path <> []) by discriminate. clearbody path.
+    apply (ctx_snoc _ _ _ _ Np) in C. destruct (ctx_get _ _ _ _ C) as (p & Gp & a & u' & b & Ek & La & Fab & Ku).
+    rewrite (get_at_snoc _ _ Np), Gp, Ek, <- La, nth_error_mid in Gu. inversion Gu; subst u'. clear Gu.
+    rewrite Gp in H.
+    destruct (rebalance_in_parent ps fill p (last path 0%nat)) as [[[p' e] c]| |] eqn:R; try discriminate.
+    cbn [bindr] in H.
+    destruct (set_at_ok (removelast path) t d p p' W Gp) as [W1 F1].
+    { intros d' Wp. eapply rebalance_in_parent_ok; eauto. }
+    destruct (get_at_wf _ _ _ _ W Gp) as [dp Wp].
+    destruct p as [ph pins pkids]. cbn [kids_of] in Ek. subst pkids.
+    assert (Npins : pins <> []).
+    { inversion Wp as [|d0 ? ? ? Hl Hlen Hk]; subst. { destruct a; discriminate. }
+      intros E0. subst pins. rewrite app_length in Hlen. cbn in Hlen. lia. }
+    apply Forall_app in Fab. destruct Fab as [Fa Fb].
+    destruct (rip_shape _ _ _ _ _ _ _ _ _ R) as [(-> & -> & -> & Hnu)|[(a1 & n & b1 & E & La1 & _ & -> & -> & -> & Nn)|
+      [(a1 & n & b1 & E & La1 & _ & Ei & _ & -> & -> & ->)|(a0 & n & b0 & a1 & l0 & r1 & b1 & E & La0 & _ & E2 & _ & -> & -> & -> & Nn)]]].
+    + (* u is not unbalanced: nothing happens, and u cannot be empty *)
+      apply Ok_inj2 in H. destruct H as [<- _].
+      apply (ctx_good rest (removelast path) _ d W1). eapply ctx_set; [exact C|]. cbn [kids_of ins_of]. split; auto.
+      apply Forall_app. split; auto. constructor; auto.
+      apply ag_nonempty; auto. intros E0. specialize (Hu Np E0). rewrite (Hnu u) in Hu; [discriminate|]. rewrite <- La. apply nth_error_mid.
+    + (* u is big enough *)
+      apply Ok_inj2 in H. destruct H as [<- _].
+      destruct (app_mid_inj _ _ _ _ _ _ E (eq_trans La (eq_sym La1))) as (<- & <- & <-).
+      apply (ctx_good rest (removelast path) _ d W1). eapply ctx_set; [exact C|]. cbn [kids_of ins_of]. split; auto.
+      apply Forall_app. split; auto. constructor; auto. now apply ag_set_unbal.
+    + (* u is empty: removed; the parent is rebalanced next *)
+      destruct (app_mid_inj _ _ _ _ _ _ E (eq_trans La (eq_sym La1))) as (<- & <- & <-).
+      destruct (rebalance_at ps fill f _ _) as [[t2 e2]| |] eqn:R2; try discriminate. cbn [bindr fst snd] in H.
+      apply Ok_inj2 in H. destruct H as [<- _].
+      eapply (IH _ _ _ _ _ _ W1 (get_set_same _ _ _ _ Gp)); [| |exact R2].
+      * eapply ctx_set; [exact C|]. cbn [kids_of]. apply Forall_app; auto.
+      * intros _ _. reflexivity.
+    + (* u is merged with a sibling; the parent is rebalanced next *)
+      destruct (app_mid_inj _ _ _ _ _ _ E (eq_trans La (eq_sym La0))) as (<- & <- & <-).
+      destruct (rebalance_at ps fill f _ _) as [[t2 e2]| |] eqn:R2; try discriminate. cbn [bindr fst snd] in H.
+      apply Ok_inj2 in H. destruct H as [<- _].
+      assert (F1' : Forall (allgood rest) (a1 ++ l0 :: r1 :: b1)).
+      { rewrite <- E2. apply Forall_app. split; auto. constructor; auto. now apply ag_set_unbal. }
+      apply Forall_app in F1'. destruct F1' as [Fa1 Fb1].
+      pose proof (Forall_inv Fb1) as Al. apply Forall_inv_tail in Fb1. pose proof (Forall_inv Fb1) as Ar. apply Forall_inv_tail in Fb1.
+      eapply (IH _ _ _ _ _ _ W1 (get_set_same _ _ _ _ Gp)); [| |exact R2].
+      * eapply ctx_set; [exact C|]. cbn [kids_of]. apply Forall_app. split; auto. constructor; auto. now apply ag_merged.
+      * intros _ _. reflexivity.
+Qed.
+
+(** ** assembling: all the visits of Bucket.rebalance *)
+Lemma find_node_sound : forall fuel t pg path, find_node fuel t pg = Some path ->
+  exists v, get_at t path = Some v /\ h_pgid (hd_of v) = pg.
+Proof.
+  induction fuel as [|f IH]; intros t pg path H; [discriminate|].
+  rewrite find_node_unfold in H.
+  destruct (h_mat (hd_of t) && (h_pgid (hd_of t) =? pg)) eqn:E.
+  - inversion H; subst. apply andb_true_iff in E. destruct E as [_ E]. apply N.eqb_eq in E. exists t. auto.
+  - destruct (find_go_spec _ _ _ _ H) as (j & c & p & -> & En & M & Ef). cbn [Nat.add get_at]. rewrite En. eauto.
+Qed.
+
+Inductive nomat (pg : N) : nt -> Prop :=
+| nm_i c : (h_mat (hd_of c) = true -> h_pgid (hd_of c) <> pg) -> Forall (nomat pg) (kids_of c) -> nomat pg c.
+
+Lemma allpg_nomat pg c : allpg false c -> nomat pg c.
+Proof.
+  induction c as [h ins kids IH] using nt_ind'. intros A. inversion A as [? ? ? M _ FK]; subst. constructor; cbn.
+  - congruence.
+  - rewrite Forall_forall in *. auto.
+Qed.
+
+Lemma find_go_none fn : forall ks i, find_go fn i ks = None -> Forall (fun c => h_mat (hd_of c) = true -> fn c = None) ks.
+Proof.
+  induction ks as [|c r IH]; intros i H; cbn in H; [constructor|].
+  destruct (h_mat (hd_of c)) eqn:M.
+  - destruct (fn c) eqn:E; [discriminate|]. constructor; eauto.
+  - constructor; eauto. congruence.
+Qed.
+
+Lemma find_node_none pg : forall fuel t d, wf d t -> (d < fuel)%nat -> closed false t -> find_node fuel t pg = None -> nomat pg t.
+Proof.
+  induction fuel as [|f IH]; intros t d W L C H; [lia|].
+  rewrite find_node_unfold in H.
+  destruct (h_mat (hd_of t) && (h_pgid (hd_of t) =? pg)) eqn:E; [discriminate|].
+  apply find_go_none in H. pose proof (closed_kids _ _ C) as K. constructor.
+  - intros M. rewrite M in E. cbn in E. now apply N.eqb_neq in E.
+  - inversion W as [? ? Hl|d0 ? ? ? Hl Hlen Hk]; subst; cbn [kids_of] in *; [constructor|].
+    rewrite Forall_forall in *. intros c Hc. destruct (h_mat (hd_of c)) eqn:M.
+    + apply (IH c d0); auto. lia.
+    + apply allpg_nomat. apply closed_nonmat; auto.
+Qed.
+
+Lemma ag_weaken_nomat pg rest c : allgood (pg :: rest) c -> nomat pg c -> allgood rest c.
+Proof.
+  induction c as [h ins kids IH] using nt_ind'. intros A Nm. inversion A as [? O K]; subst. inversion Nm as [? Hm Kn]; subst.
+  cbn [kids_of hd_of ins_of] in *. constructor; cbn [kids_of].
+  - intros E. destruct (O E) as (M & U & Z & [Ep|Hin]); cbn [hd_of] in *; repeat split; auto. exfalso. apply (Hm M). auto.
+  - rewrite Forall_forall in *. auto.
+Qed.
+
+Lemma ids_eq h ins kids : ids (NT h ins kids) = map fst (ownh h) ++ flat_map ids kids.
+Proof.
+  unfold ids. rewrite runs_eq, map_app. f_equal. induction kids as [|c r IH]; cbn [flat_map map]; [reflexivity|].
+  now rewrite map_app, IH.
+Qed.
+Lemma ids_own t : h_pgid (hd_of t) <> 0 -> In (h_pgid (hd_of t)) (ids t).
+Proof.
+  destruct t as [h i k]. cbn [hd_of]. intros Z. rewrite ids_eq. apply in_or_app. left. unfold ownh.
+  destruct (N.eqb_spec (h_pgid h) 0); [contradiction | now left].
+Qed.
+Lemma ids_kid t c x : In c (kids_of t) -> In x (ids c) -> In x (ids t).
+Proof. destruct t as [h i k]. cbn [kids_of]. intros Hc Hx. rewrite ids_eq. apply in_or_app. right. apply in_flat_map. eauto. Qed.
+Lemma get_at_in_ids : forall r c v, get_at c r = Some v -> h_pgid (hd_of v) <> 0 -> In (h_pgid (hd_of v)) (ids c).
+Proof.
+  induction r as [|j r IH]; intros c v G Z; cbn in G.
+  - inversion G; subst. now apply ids_own.
+  - destruct (nth_error (kids_of c) j) as [c'|] eqn:E; [|discriminate]. eapply ids_kid; [eapply nth_error_In; eauto | eauto].
+Qed.
+
+Lemma ag_weaken_ids pg rest c : allgood (pg :: rest) c -> (pg <> 0 -> ~ In pg (ids c)) -> allgood rest c.
+Proof.
+  induction c as [h ins kids IH] using nt_ind'. intros A Hn. inversion A as [? O K]; subst.
+  cbn [kids_of hd_of ins_of] in *. constructor; cbn [kids_of].
+  - intros E. destruct (O E) as (M & U & Z & [Ep|Hin]); cbn [hd_of] in *; repeat split; auto. exfalso.
+    subst pg. apply (Hn Z). apply (ids_own (NT h ins kids)). exact Z.
+  - rewrite Forall_forall in *. intros c Hc. apply IH; auto. intros Z Hin. apply (Hn Z). eapply (ids_kid (NT h ins kids)); eauto.
+Qed.
+
+Lemma nodup_disj {A} (l1 l2 : list A) x : NoDup (l1 ++ l2) -> In x l1 -> In x l2 -> False.
+Proof.
+  induction l1 as [|y l1 IH]; cbn; intros ND H1 H2; [auto|]. inversion ND; subst.
+  destruct H1 as [->|H1]; [apply H3; apply in_or_app; auto | eauto].
+Qed.
+
+Lemma nodup_flat_map_mid {A B} (f : A -> list B) a c b : NoDup (flat_map f (a ++ c :: b)) ->
+  NoDup (f c) /\ forall s x, In s (a ++ b) -> In x (f c) -> ~ In x (f s).
+Proof.
+  rewrite flat_map_app. cbn [flat_map]. intros ND. destruct (nodup_app_inv _ _ ND) as [_ ND2]. split; [apply (nodup_app_inv _ _ ND2)|].
+  intros s x Hs Hc Hx. apply in_app_or in Hs. destruct Hs as [Hs|Hs].
+  - apply (nodup_disj _ _ x ND); [apply in_flat_map; eauto | apply in_or_app; auto].
+  - apply (nodup_disj _ _ x ND2); [auto | apply in_flat_map; eauto].
+Qed.
+
+Lemma conv_ctx pg rest : forall path t v, Forall (allgood (pg :: rest)) (kids_of t) -> NoDup (ids t) ->
+  get_at t path = Some v -> h_pgid (hd_of v) = pg -> ctx rest path t (fun s => Forall (allgood rest) (kids_of s)).
+Proof.
+  induction path as [|j r IH]; intros t v K ND G Ev; cbn [ctx]; cbn in G.
+  - inversion G; subst v. destruct t as [h ins kids]. cbn [kids_of hd_of] in *. rewrite ids_eq in ND.
+    rewrite Forall_forall in *. intros c Hc. apply (ag_weaken_ids pg); auto. intros Z Hin.
+    apply (nodup_disj _ _ pg ND); [|apply in_flat_map; eauto]. unfold ownh. subst pg.
+    destruct (N.eqb_spec (h_pgid h) 0); [contradiction | now left].
+  - destruct t as [h ins kids]. cbn [kids_of] in *.
+    destruct (nth_error kids j) as [c|] eqn:Ec; [|discriminate].
+    destruct (nth_error_decomp _ _ _ Ec) as (a & b & -> & La). exists a, c, b. repeat split; auto.
+    + rewrite ids_eq in ND. destruct (nodup_app_inv _ _ ND) as [_ ND2].
+      destruct (nodup_flat_map_mid ids a c b ND2) as [_ Dj].
+      apply Forall_app in K. destruct K as [Ka Kb]. pose proof (Forall_inv_tail Kb) as Kb'.
+      assert (Kab : Forall (allgood (pg :: rest)) (a ++ b)) by (apply Forall_app; auto).
+      rewrite Forall_forall in *. intros s Hs. apply (ag_weaken_ids pg); auto. intros Z.
+      apply (Dj s pg Hs). subst pg. eapply get_at_in_ids; eauto.
+    + apply (IH c v); auto.
+      * apply ag_kids. apply Forall_app in K. destruct K as [_ Kb]. now apply Forall_inv in Kb.
+      * rewrite ids_eq in ND. destruct (nodup_app_inv _ _ ND) as [_ ND2]. apply (nodup_flat_map_mid ids a c b ND2).
+Qed.
+
+Lemma get_at_ag R : forall path c v, allgood R c -> get_at c path = Some v -> allgood R v.
+Proof.
+  induction path as [|j r IH]; intros c v A G; cbn in G; [inversion G; subst; auto|].
+  destruct (nth_error (kids_of c) j) as [c'|] eqn:E; [|discriminate].
+  apply (IH c'); auto. pose proof (ag_kids _ _ A) as K. rewrite Forall_forall in K. apply K. eapply nth_error_In; eauto.
+Qed.
+
+Lemma rebalance_root_height ps fill t d t' evs :
+  wf d t -> rebalance_root ps fill t = (t', evs) -> exists d', (d' <= d)%nat /\ wf d' t'.
+Proof.
+  intros W H. unfold rebalance_root in H.
+  destruct (negb (h_unbal (hd_of t))). { inversion H; subst. eauto. }
+  assert (D : exists d', (d' <= d)%nat /\ wf d' (set_unbal false t)) by (exists d; split; [lia | now apply wf_set_unbal]).
+  destruct (big_enough _ ps fill). { inversion H; subst; auto. }
+  destruct t as [h ins kids]. cbn [set_unbal] in *. cbn [h_leaf] in H.
+  destruct (h_leaf h) eqn:Hl; [inversion H; subst; auto|].
+  destruct ins as [|x [|x2 xs]]; [inversion H; subst; auto| |inversion H; subst; auto].
+  destruct kids as [|c0 [|c1 cs]]; [inversion H; subst; auto| |inversion H; subst; auto].
+  inversion H; subst t' evs. clear H D.
+  inversion W as [|d0 ? ? ? _ _ Hk]; subst. pose proof (Forall_inv Hk) as Wc.
+  apply wf_materialize in Wc. destruct (materialize c0) as [hc ic kc]. cbn [hd_of ins_of kids_of].
+  exists d0. split; [lia | eapply wf_hdr; eauto].
+Qed.
+
+Lemma rebalance_at_height ps fill : forall fuel t path d t' evs,
+  wf d t -> rebalance_at ps fill fuel t path = Ok (t', evs) -> exists d', (d' <= d)%nat /\ wf d' t'.
+Proof.
+  induction fuel as [|f IH]; intros t path d t' evs W H; [discriminate|].
+  cbn [rebalance_at] in H. destruct path as [|i0 r0].
+  - apply Ok_inj in H. eapply rebalance_root_height; eauto.
+  - set (path := i0 :: r0) in *. clearbody path.
+    destruct (get_at t (removelast path)) as [p|] eqn:G; [|discriminate].
+    destruct (rebalance_in_parent ps fill p (last path 0%nat)) as [[[p' e] c]| |] eqn:R; try discriminate.
+    cbn [bindr] in H.
+    destruct (set_at_ok (removelast path) t d p p' W G) as [W1 F1].
+    { intros d' Wp. eapply rebalance_in_parent_ok; eauto. }
+    destruct c.
+    + destruct (rebalance_at ps fill f _ _) as [[t2 e2]| |] eqn:R2; try discriminate. cbn [bindr fst snd] in H.
+      apply Ok_inj2 in H. destruct H as [<- _]. eapply IH; eauto.
+    + apply Ok_inj2 in H. destruct H as [<- _]. exists d. split; [lia | auto].
+Qed.
+
+Lemma rebalance_all_good ps fill fuel : forall order t d t' evs,
+  wf d t -> (d < fuel)%nat -> closed false t -> NoDup (ids t) -> good order t ->
+  rebalance_all ps fill fuel t order = Ok (t', evs) -> good [] t'.
+Proof.
+  induction order as [|pg rest IH]; intros t d t' evs W L C ND G H; cbn [rebalance_all] in H.
+  - apply Ok_inj2 in H. destruct H as [<- _]. exact G.
+  - destruct (find_node fuel t pg) as [path|] eqn:Fn.
+    + destruct (find_node_sound _ _ _ _ Fn) as (v & Gv & Ev).
+      destruct (rebalance_at ps fill fuel t path) as [[t1 e1]| |] eqn:R; try discriminate. cbn [bindr fst snd] in H.
+      destruct (rebalance_all ps fill fuel t1 rest) as [[t2 e2]| |] eqn:R2; try discriminate. cbn [bindr fst snd] in H.
+      apply Ok_inj2 in H. destruct H as [<- _].
+      destruct (rebalance_at_height _ _ _ _ _ _ _ _ W R) as (d1 & Ld & W1).
+      pose proof (rebalance_at_closed false _ _ _ _ _ _ _ C (find_node_matpath false _ _ _ _ C Fn) R) as C1.
+      pose proof (rebalance_at_runs _ _ _ _ _ _ _ _ W R) as HP.
+      assert (ND1 : NoDup (ids t1)).
+      { pose proof (Permutation_map fst HP) as HM. rewrite map_app in HM. apply (Permutation_NoDup HM) in ND. apply (nodup_app_inv _ _ ND). }
+      assert (G1 : good rest t1).
+      { eapply (rebalance_at_good ps fill rest fuel t path d t1 e1 v W Gv); [| |exact R].
+        - eapply conv_ctx; eauto.
+        - intros Np E0. destruct path as [|j r]; [congruence|]. cbn in Gv.
+          destruct (nth_error (kids_of t) j) as [c|] eqn:Ec; [|discriminate].
+          assert (Ac : allgood (pg :: rest) c). { unfold good in G. rewrite Forall_forall in G. apply G. eapply nth_error_In; eauto. }
+          pose proof (get_at_ag _ _ _ _ Ac Gv) as Av. destruct (ag_okv _ _ Av E0) as (_ & U & _). exact U. }
+      eapply (IH t1 d1); eauto. lia.
+    + apply (IH t d t' evs); auto.
+      pose proof (find_node_none pg fuel t d W L C Fn) as Nm. inversion Nm as [? _ Kn]; subst.
+      unfold good in *. rewrite Forall_forall in *. intros c Hc. apply (ag_weaken_nomat pg); auto.
+Qed.
+
+(** P4 / Q3.  Hypotheses: t is a balanced aligned tree of height d < fuel (with less fuel [find_node] silently finds nothing
+    and visits are skipped); materialised vertices are parent-closed; the non-zero page ids of ALL vertices are pairwise
+    distinct ([NoDup (ids t)]: the siblings that a merge materialises get their page's id, so pages count too); every
+    non-root vertex without inodes is materialised, unbalanced, has a non-zero page id and that id occurs in [order].
+    Then no non-root vertex of the committed tree is empty. *)
+Theorem commit_tree_no_empty ps fill fuel t order t' evs d :
+  wf d t -> (d < fuel)%nat -> closed false t -> NoDup (ids t) -> good order t ->
+  commit_tree ps fill fuel t order = Ok (t', evs) -> good [] t' /\ aligned t'.
+Proof.
+  intros W L C ND G H. pose proof (commit_tree_flat _ _ _ _ _ _ _ (ex_intro _ d W) H) as [_ A]. split; auto.
+  unfold commit_tree in H.
+  destruct (rebalance_all ps fill fuel t order) as [[t1 e1]| |] eqn:R; try discriminate. cbn [bindr fst snd] in H.
+  destruct (spill_root ps fill fuel t1) as [[t2 e2]| |] eqn:Sp; try discriminate. cbn [bindr fst snd] in H.
+  apply Ok_inj2 in H. destruct H as [<- _].
+  destruct (rebalance_all_ok _ _ _ _ _ _ _ _ W R) as [[d1 W1] F1].
+  apply (spill_root_ne ps fill fuel t1 d1 t2 e2 W1); [|exact Sp].
+  apply (rebalance_all_good ps fill fuel order t d t1 e1); auto.
+Qed.
+Print Assumptions commit_tree_no_empty.
+
+(** the same in terms of Tree.v's [no_empty] *)
+Lemma no_empty_of_good : forall f t d root, wf d t -> (d < f)%nat -> (root = true \/ ins_of t <> []) ->
+  Forall (allgood []) (kids_of t) -> no_empty f root t = true.
+Proof.
+  induction f as [|f IH]; intros t d root W L Hr K; [lia|]. cbn [no_empty]. apply andb_true_iff. split.
+  - destruct Hr as [->|Ne]; [reflexivity|]. destruct (ins_of t); [congruence|]. now destruct root.
+  - inversion W as [? ? Hl|d0 ? ? ? Hl Hlen Hk]; subst; cbn [hd_of ins_of kids_of] in *; rewrite Hl; [reflexivity|].
+    cbn [orb]. rewrite Hlen, Nat.eqb_refl. cbn [andb]. apply forallb_forall. intros c Hc.
+    rewrite Forall_forall in K, Hk. apply (IH c d0); auto; [lia | right; apply ag_nil_ne; auto | apply ag_kids; auto].
+Qed.
+
+Corollary commit_tree_no_empty_b ps fill fuel t order t' evs d :
+  wf d t -> (d < fuel)%nat -> closed false t -> NoDup (ids t) -> good order t ->
+  commit_tree ps fill fuel t order = Ok (t', evs) -> exists d', wf d' t' /\ forall f, (d' < f)%nat -> no_empty f true t' = true.
+Proof.
+  intros W L C ND G H. destruct (commit_tree_no_empty _ _ _ _ _ _ _ _ W L C ND G H) as [G' [d' W']].
+  exists d'. split; auto. intros f Lf. apply (no_empty_of_good f t' d' true W' Lf); auto.
+Qed.
+Print Assumptions commit_tree_no_empty_b.
+
+(** the hypotheses of [commit_tree_no_empty] hold for [ex1] (so the theorem is not vacuous), and its conclusion can be
+    observed on [ex1_commit] *)
+Example ex1_hyps : wf 1 ex1 /\ closed false ex1 /\ NoDup (ids ex1) /\ good [4] ex1.
+Proof.
+  split; [exact ex1_wf|]. split; [|split].
+  - assert (Pg : forall pg k i, closed false (NT (mkh false false pg k true) i [])).
+    { intros. apply closed_page. constructor; [reflexivity | intros E; discriminate | constructor]. }
+    apply closed_mat; [reflexivity|]. constructor; [apply Pg|]. constructor; [apply closed_mat; [reflexivity | constructor]|].
+    constructor; [apply Pg | constructor].
+  - vm_compute. repeat constructor; cbn; intuition discriminate.
+  - unfold good, ex1. cbn [kids_of].
+    constructor; [apply ag_nonempty; [discriminate | constructor]|].
+    constructor; [|constructor; [apply ag_nonempty; [discriminate | constructor] | constructor]].
+    constructor; [|constructor]. intros _. cbn. repeat split; auto. discriminate.
+Qed.
+Example ex1_no_empty : match commit_tree 4096 50 10 ex1 [4] with Ok (t', _) => no_empty 10 true t' | _ => false end = true.
+Proof. vm_compute. reflexivity. Qed.
